@@ -222,6 +222,10 @@ class _FindChangeDependencies:
             if resource in self.changed_resources:
                 return True
             for changed in self.changed_resources:
+                if resource.path == changed.path:
+                    # the same location, whatever it was at the time (a file
+                    # then, a folder now)
+                    return True
                 if resource.is_folder() and resource.contains(changed):
                     return True
                 if changed.is_folder() and changed.contains(resource):
